@@ -31,6 +31,9 @@ func init() {
 			{ID: "C18.R8", Floor: 2, Run: c18r8, Text: "Exchange builder consistency: every builder stored into Exchange.builder went through WithRelation(relationID) on every path on which hasRelation may be true"},
 			{ID: "C18.R9", Floor: 10, Run: c16r4, Text: "the generic relation-type test agrees with the core's (= C16.R4)"},
 			{ID: "C18.R10", Floor: 6, Run: c18r10, Text: "the compiled filter loses no clause: every value stored into compiledQuery.filter is the full mask filter, or its Include mask alone only where `exclusive` is false and `exclude` is empty, or (exactly where a target is given) the relation filter built in the same block around one of those two with the `target` argument; Register wraps the current filter, Unregister restores what Cache.Unregister returns for it"},
+			{ID: "C18.R11", Floor: 2, Run: typeParamReflection, Text: "reflection of type parameters: reflect.TypeOf is never applied to a value of bare type-parameter type (nil for interface type arguments, so distinct types collapse into one registry key); the idiom reflect.TypeOf((*T)(nil)).Elem() is followed by Elem()"},
+			{ID: "C18.R12", Floor: 10, Run: mapperStateless, Text: "generic mappers hold no world state: methods of Resource[T], Map[T] and MapN never write their receiver's own fields (E-mod); only constructors do"},
+			{ID: "C18.R13", Floor: 4, Run: mapperDelegates, Text: "delegation: each method of Resource[T] that has a namesake on ecs.Resources calls that namesake (Has answers what Resources.Has answers, not whether Get is non-nil)"},
 		},
 	})
 }
